@@ -6,8 +6,10 @@
 package main
 
 import (
+	"encoding/json"
 	"fmt"
 	"reflect"
+	"strings"
 
 	metav1 "k8s.io/apimachinery/pkg/apis/meta/v1"
 	"k8s.io/apimachinery/pkg/runtime"
@@ -24,9 +26,9 @@ import (
 	"verifh/kit"
 )
 
-const nDims = 7
+const nDims = 9 // 7 yes/no dimensions + a 2-bit annotation shape (bits 7-8)
 
-var dimNames = []string{"labels", "annotations", "spec-scalar", "spec-nested", "status", "generation", "finalizers"}
+var dimNames = []string{"labels", "annotations", "spec-scalar", "spec-nested", "status", "generation", "finalizers", "annotation-key-removed", "annotation-key-added"}
 
 type kind struct {
 	name      string
@@ -40,12 +42,22 @@ type kind struct {
 
 func meta(diff uint, gen int64) metav1.ObjectMeta {
 	m := metav1.ObjectMeta{Name: "obj", UID: "u1", ResourceVersion: "5", Generation: gen,
-		Labels: map[string]string{"l": "1"}, Annotations: map[string]string{"a": "1"}, Finalizers: []string{"f1"}}
+		Labels: map[string]string{"l": "1"}, Annotations: map[string]string{"a": "1", "b": "1"}, Finalizers: []string{"f1"}}
 	if diff&1 != 0 {
 		m.Labels = map[string]string{"l": "2", "m": "x"}
 	}
 	if diff&2 != 0 {
-		m.Annotations = map[string]string{"a": "2"}
+		m.Annotations["a"] = "2"
+	}
+	// the shape of the change matters as much as its presence: a value edit, a key only removed (the submitted map is a
+	// subset of the stored one), a key only added, everything removed
+	switch (diff >> 7) & 3 {
+	case 1:
+		delete(m.Annotations, "b")
+	case 2:
+		m.Annotations["c"] = "1"
+	case 3:
+		m.Annotations = nil
 	}
 	if diff&32 != 0 {
 		m.Generation = gen + 41
@@ -109,9 +121,17 @@ func rlcKind(name string, main rest.RESTCreateUpdateStrategy, subStatus bool) ki
 func diffNames(d uint) string {
 	s := ""
 	for i := 0; i < nDims; i++ {
-		if d&(1<<uint(i)) != 0 {
+		if d&(1<<uint(i)) != 0 && i < 7 {
 			s += dimNames[i] + " "
 		}
+	}
+	switch (d >> 7) & 3 {
+	case 1:
+		s += "annotation-key-removed "
+	case 2:
+		s += "annotation-key-added "
+	case 3:
+		s += "all-annotations-removed "
 	}
 	if s == "" {
 		return "(none)"
@@ -139,6 +159,92 @@ func labels(o runtime.Object) map[string]string {
 	return nil
 }
 
+func annotations(o runtime.Object) map[string]string {
+	switch x := o.(type) {
+	case *proxyv1alpha1.UpstreamCluster:
+		return x.Annotations
+	case *proxyv1alpha1.RateLimitCondition:
+		return x.Annotations
+	}
+	return nil
+}
+
+// chains: the same per-step oracle, but from every stored object REACHABLE through the strategies themselves
+// (breadth-first over stored objects, deduplicated on their JSON form): the stored side of a step is whatever the
+// real PrepareForUpdate chain produced earlier, not a hand-built object.
+func chains(c *ev.Check, k kind, g0 int64, maxGen int64) {
+	ctx := genericapirequest.NewContext()
+	key := func(o runtime.Object) string { b, _ := json.Marshal(o); return string(b) }
+	start := k.mk(0, g0)
+	seen := map[string]bool{key(start): true}
+	type node struct {
+		o    runtime.Object
+		path string
+	}
+	frontier := []node{{start, ""}}
+	entries := []string{"main"}
+	if k.status != nil {
+		entries = append(entries, "status")
+	}
+	for len(frontier) > 0 {
+		n := frontier[0]
+		frontier = frontier[1:]
+		c.Add("chain_states", 1)
+		if gen(n.o) >= maxGen {
+			continue
+		}
+		for _, e := range entries {
+			for d := uint(0); d < 1<<nDims; d++ {
+				old, obj := n.o.DeepCopyObject(), k.mk(d, gen(n.o))
+				strat := rest.RESTUpdateStrategy(k.main)
+				if e == "status" {
+					strat = k.status
+				}
+				c.Add("chain_transitions", 1)
+				var err error
+				path := fmt.Sprintf("%s -> %s[%s]", n.path, e, diffNames(d))
+				if p := kit.Try(func() { err = rest.BeforeUpdate(strat, ctx, obj, old) }); p != "" || err != nil {
+					c.Violation("chain/update-failed", fmt.Sprintf("%s after %s: %v %s", k.name, path, err, p), nil)
+					continue
+				}
+				specSame := reflect.DeepEqual(k.spec(obj), k.spec(n.o))
+				annSame := reflect.DeepEqual(annotations(k.mk(d, 0)), annotations(n.o))
+				replay := map[string]interface{}{"kind": k.name, "history": path, "start_generation": g0}
+				if e == "main" {
+					want := gen(n.o)
+					if !reflect.DeepEqual(k.spec(k.mk(d, 0)), k.spec(n.o)) || !annSame {
+						want++
+					}
+					if gen(obj) != want {
+						c.Violation("chain/main-generation", fmt.Sprintf("%s: after%s the generation is %d, expected %d (stored object had %d)", k.name, path, gen(obj), want, gen(n.o)), replay)
+					}
+					if k.subStatus && !reflect.DeepEqual(k.stat(obj), k.stat(n.o)) {
+						c.Violation("chain/main-status-changed", fmt.Sprintf("%s: after%s the main update changed the stored status", k.name, path), replay)
+					}
+				} else {
+					if !specSame {
+						c.Violation("chain/status-spec-changed", fmt.Sprintf("%s: after%s the status update changed the stored spec", k.name, path), replay)
+					}
+					if !reflect.DeepEqual(labels(obj), labels(n.o)) {
+						c.Violation("chain/status-labels-changed", fmt.Sprintf("%s: after%s the status update changed the stored labels", k.name, path), replay)
+					}
+					if !reflect.DeepEqual(k.stat(obj), k.stat(k.mk(d, 0))) {
+						c.Violation("chain/status-not-stored", fmt.Sprintf("%s: after%s the status update did not store the submitted status", k.name, path), replay)
+					}
+					if annSame && gen(obj) != gen(n.o) {
+						c.Violation("chain/status-generation", fmt.Sprintf("%s: after%s the status update changed the generation %d -> %d", k.name, path, gen(n.o), gen(obj)), replay)
+					}
+				}
+				if kk := key(obj); !seen[kk] {
+					seen[kk] = true
+					c.SetMax("chain_depth", int64(strings.Count(path, "->")))
+					frontier = append(frontier, node{obj, path})
+				}
+			}
+		}
+	}
+}
+
 func main() {
 	c := ev.Start("C20", "exploration")
 	gatewayinstall.Install(scheme.Scheme)
@@ -153,83 +259,97 @@ func main() {
 		rlcKind("RateLimitCondition(generic strategy with status subresource)", registry.ClusterScopeStorageStrategySingleton, true),
 	}
 	ctx := genericapirequest.NewContext()
+	var tasks []ev.Task
 	for _, k := range kinds {
-		for _, g := range []int64{0, 1, 7} {
-			for d := uint(0); d < 1<<nDims; d++ {
-				// ---- main resource update
-				old, obj := k.mk(0, g), k.mk(d, g)
-				c.Add("updates", 1)
-				var err error
-				if p := kit.Try(func() { err = rest.BeforeUpdate(k.main, ctx, obj, old) }); p != "" || err != nil {
-					c.Violation("update-failed", fmt.Sprintf("%s main update diff=%s: %v %s", k.name, diffNames(d), err, p), nil)
-					continue
-				}
-				specChanged := d&(4|8) != 0
-				annChanged := d&2 != 0
-				want := g
-				if specChanged || annChanged {
-					want = g + 1
-				}
-				c.Outcome("cases", fmt.Sprintf("%s/main/%d/%v", k.name, d, g))
-				c.Outcome("generation_deltas", fmt.Sprint(gen(obj)-g))
-				if gen(obj) != want {
-					what := "no-change-bumps-generation"
-					if want == g+1 {
-						what = "change-does-not-bump-generation"
-					}
-					c.Violation("main/"+what, fmt.Sprintf("%s: main update with differing fields [%s], old generation %d: new generation %d, expected %d", k.name, diffNames(d), g, gen(obj), want),
-						map[string]interface{}{"kind": k.name, "diff": diffNames(d), "old_generation": g})
-				}
-				if k.subStatus && !reflect.DeepEqual(k.stat(obj), k.stat(old)) {
-					c.Violation("main/status-changed", fmt.Sprintf("%s: main update changed the status (diff [%s])", k.name, diffNames(d)), nil)
-				}
-				if d == 5 {
-					c.Sample("main-update", map[string]interface{}{"kind": k.name, "differs": diffNames(d), "old_generation": g, "new_generation": gen(obj)})
-				}
-				// ---- status subresource update
-				if k.status != nil {
-					old, obj = k.mk(0, g), k.mk(d, g)
+		k := k
+		tasks = append(tasks, ev.Task{Name: "product/" + k.name, Run: func() {
+			for _, g := range []int64{0, 1, 7} {
+				for d := uint(0); d < 1<<nDims; d++ {
+					// ---- main resource update
+					old, obj := k.mk(0, g), k.mk(d, g)
 					c.Add("updates", 1)
-					if p := kit.Try(func() { err = rest.BeforeUpdate(k.status, ctx, obj, old) }); p != "" || err != nil {
-						c.Violation("update-failed", fmt.Sprintf("%s status update diff=%s: %v %s", k.name, diffNames(d), err, p), nil)
+					var err error
+					if p := kit.Try(func() { err = rest.BeforeUpdate(k.main, ctx, obj, old) }); p != "" || err != nil {
+						c.Violation("update-failed", fmt.Sprintf("%s main update diff=%s: %v %s", k.name, diffNames(d), err, p), nil)
 						continue
 					}
-					c.Outcome("cases", fmt.Sprintf("%s/status/%d/%v", k.name, d, g))
-					if !reflect.DeepEqual(k.spec(obj), k.spec(old)) {
-						c.Violation("status/spec-changed", fmt.Sprintf("%s: status update changed the spec (diff [%s])", k.name, diffNames(d)), nil)
+					specChanged := d&(4|8) != 0
+					annChanged := d&(2|128|256) != 0
+					want := g
+					if specChanged || annChanged {
+						want = g + 1
 					}
-					if !reflect.DeepEqual(labels(obj), labels(old)) {
-						c.Violation("status/labels-changed", fmt.Sprintf("%s: status update changed the labels (diff [%s])", k.name, diffNames(d)), nil)
+					c.Outcome("cases", fmt.Sprintf("%s/main/%d/%v", k.name, d, g))
+					c.Outcome("generation_deltas", fmt.Sprint(gen(obj)-g))
+					if gen(obj) != want {
+						what := "no-change-bumps-generation"
+						if want == g+1 {
+							what = "change-does-not-bump-generation"
+						}
+						c.Violation("main/"+what, fmt.Sprintf("%s: main update with differing fields [%s], old generation %d: new generation %d, expected %d", k.name, diffNames(d), g, gen(obj), want),
+							map[string]interface{}{"kind": k.name, "diff": diffNames(d), "old_generation": g})
 					}
-					if d&16 != 0 && reflect.DeepEqual(k.stat(obj), k.stat(old)) && k.name != "UpstreamCluster" {
-						c.Violation("status/status-not-updated", fmt.Sprintf("%s: status update did not store the submitted status", k.name), nil)
+					if k.subStatus && !reflect.DeepEqual(k.stat(obj), k.stat(old)) {
+						c.Violation("main/status-changed", fmt.Sprintf("%s: main update changed the status (diff [%s])", k.name, diffNames(d)), nil)
 					}
-					if !annChanged && gen(obj) != g {
-						c.Violation("status/generation-changed", fmt.Sprintf("%s: status update (diff [%s]) changed generation %d -> %d", k.name, diffNames(d), g, gen(obj)), nil)
+					if d == 5 {
+						c.Sample("main-update", map[string]interface{}{"kind": k.name, "differs": diffNames(d), "old_generation": g, "new_generation": gen(obj)})
 					}
-				}
-				// ---- create
-				obj = k.mk(d, g)
-				c.Add("creates", 1)
-				if p := kit.Try(func() { err = rest.BeforeCreate(k.main, ctx, obj) }); p != "" || err != nil {
-					c.Violation("create-failed", fmt.Sprintf("%s create diff=%s: %v %s", k.name, diffNames(d), err, p), nil)
-					continue
-				}
-				if gen(obj) != 1 {
-					c.Violation("create/generation", fmt.Sprintf("%s: created with generation %d, expected 1", k.name, gen(obj)), nil)
-				}
-				if k.subStatus {
-					zero := reflect.Zero(reflect.TypeOf(k.stat(obj))).Interface()
-					if !reflect.DeepEqual(k.stat(obj), zero) {
-						c.Violation("create/status-not-cleared", fmt.Sprintf("%s: creation kept a submitted status", k.name), nil)
+					// ---- status subresource update
+					if k.status != nil {
+						old, obj = k.mk(0, g), k.mk(d, g)
+						c.Add("updates", 1)
+						if p := kit.Try(func() { err = rest.BeforeUpdate(k.status, ctx, obj, old) }); p != "" || err != nil {
+							c.Violation("update-failed", fmt.Sprintf("%s status update diff=%s: %v %s", k.name, diffNames(d), err, p), nil)
+							continue
+						}
+						c.Outcome("cases", fmt.Sprintf("%s/status/%d/%v", k.name, d, g))
+						if !reflect.DeepEqual(k.spec(obj), k.spec(old)) {
+							c.Violation("status/spec-changed", fmt.Sprintf("%s: status update changed the spec (diff [%s])", k.name, diffNames(d)), nil)
+						}
+						if !reflect.DeepEqual(labels(obj), labels(old)) {
+							c.Violation("status/labels-changed", fmt.Sprintf("%s: status update changed the labels (diff [%s])", k.name, diffNames(d)), nil)
+						}
+						if d&16 != 0 && reflect.DeepEqual(k.stat(obj), k.stat(old)) && k.name != "UpstreamCluster" {
+							c.Violation("status/status-not-updated", fmt.Sprintf("%s: status update did not store the submitted status", k.name), nil)
+						}
+						if !annChanged && gen(obj) != g {
+							c.Violation("status/generation-changed", fmt.Sprintf("%s: status update (diff [%s]) changed generation %d -> %d", k.name, diffNames(d), g, gen(obj)), nil)
+						}
+					}
+					// ---- create
+					obj = k.mk(d, g)
+					c.Add("creates", 1)
+					if p := kit.Try(func() { err = rest.BeforeCreate(k.main, ctx, obj) }); p != "" || err != nil {
+						c.Violation("create-failed", fmt.Sprintf("%s create diff=%s: %v %s", k.name, diffNames(d), err, p), nil)
+						continue
+					}
+					if gen(obj) != 1 {
+						c.Violation("create/generation", fmt.Sprintf("%s: created with generation %d, expected 1", k.name, gen(obj)), nil)
+					}
+					if k.subStatus {
+						zero := reflect.Zero(reflect.TypeOf(k.stat(obj))).Interface()
+						if !reflect.DeepEqual(k.stat(obj), zero) {
+							c.Violation("create/status-not-cleared", fmt.Sprintf("%s: creation kept a submitted status", k.name), nil)
+						}
 					}
 				}
 			}
+		}})
+	}
+	maxGen := int64(c.Pick(3, 6))
+	for _, k := range kinds {
+		for _, g := range []int64{0, 1} {
+			k, g := k, g
+			tasks = append(tasks, ev.Task{Name: fmt.Sprintf("chains/%s/g%d", k.name, g), Run: func() { chains(c, k, g, g+maxGen) }})
 		}
 	}
+	c.RunTasks(tasks)
 	c.Finish(map[string]interface{}{
+		"states":              c.Counter("chain_states"),
+		"transitions":         c.Counter("chain_transitions"),
 		"evaluations":         c.Counter("updates") + c.Counter("creates"),
 		"distinct_nontrivial": c.DistinctCount("cases"),
-		"rule":                "full product: 3 strategy/kind configurations x old generation {0,1,7} x 2^7 subsets of {labels, annotations, spec scalar, nested spec element, status, submitted generation, finalizers} differing between stored and submitted object; each through main update, status update (where served) and create. Distinct = (kind, entry point, subset, generation).",
+		"rule":                "full product: 3 strategy/kind configurations x old generation {0,1,7} x 2^7 subsets of {labels, annotation value, spec scalar, nested spec element, status, submitted generation, finalizers} x 4 annotation shapes {-, key removed, key added, all removed} differing between stored and submitted object; each through main update, status update (where served) and create. Distinct = (kind, entry point, subset, generation). Chains: breadth-first over every stored object reachable through the strategies themselves (dedup on the JSON form, generation growth capped), every (entry point x subset) step judged from each.",
 	})
 }
